@@ -532,7 +532,8 @@ SBuf::chop(size_type pos, size_type n)
     if (pos == npos || pos > length())
         pos = length();
 
-    if (n == npos || (pos+n) > length())
+    // pos <= length() here; comparing against the remainder cannot wrap around like pos+n can
+    if (n == npos || n > length() - pos)
         n = length() - pos;
 
     // if there will be nothing left, reset the buffer while we can
